@@ -64,13 +64,13 @@ inductive Frame (Loc β : Type) where
 deriving Repr, BEq, Hashable
 
 inductive SinkPh where | idle | subscribed | live | doneBySrc | doneBySelf
-deriving DecidableEq, Repr, BEq, Hashable, Inhabited
+deriving DecidableEq, Repr, Hashable, Inhabited
 inductive SrcPh where | idle | subscribed | live | ended | disposed
-deriving DecidableEq, Repr, BEq, Hashable, Inhabited
+deriving DecidableEq, Repr, Hashable, Inhabited
 
 /-- what kind of terminal a sink received -/
 inductive Fin where | term | err (e : Nat)
-deriving DecidableEq, Repr, BEq, Hashable, Inhabited
+deriving DecidableEq, Repr, Hashable, Inhabited
 
 /-- the ways an operator can break the protocol; each belongs to one property -/
 inductive Viol where
@@ -85,7 +85,7 @@ inductive Viol where
   | orphan (i : Nat)                         -- C04: output over, control back at top level, upstream still live
   | errLost (e : Nat) (k : Nat)              -- C05: upstream error not delivered (unchanged, once) to live sink k
   | errSibling (e : Nat) (i : Nat)           -- C05: upstream i still live after another upstream's error was handled
-deriving DecidableEq, Repr, BEq, Hashable, Inhabited
+deriving DecidableEq, Repr, Hashable, Inhabited
 
 /-- the property a violation belongs to -/
 def Viol.prop : Viol → Nat
@@ -103,22 +103,54 @@ def setAt {α} [Inhabited α] : List α → Nat → α → List α
   | _ :: xs, 0, a => a :: xs
   | x :: xs, i+1, a => x :: setAt xs i a
 
-/-- ghost protocol state and monitor -/
-structure G where
+/-! ## Ghost state, layer 1: protocol phases (C01–C03, the protocol part of C04) -/
+
+/-- phases of every sink and upstream, and the violations that depend on phases only -/
+structure Ph where
   sink : List SinkPh := []
   src : List SrcPh := []
-  fin : List (Option Fin) := []                  -- per sink: terminal received
-  sinkErr : Option (Nat × Nat) := none           -- (error a sink is sending upstream, stack height of that call)
-  pend : Option (Nat × Nat × List Nat) := none   -- (error id, stack height at arrival, sinks live at arrival)
   viols : List Viol := []
 deriving Repr, BEq, Hashable
 
-def G.sinkPh (g : G) (k : Nat) : SinkPh := phAt g.sink k
-def G.srcPh (g : G) (i : Nat) : SrcPh := phAt g.src i
-def G.finOf (g : G) (k : Nat) : Option Fin := phAt g.fin k
-def G.setSink (g : G) (k : Nat) (p : SinkPh) : G := { g with sink := setAt g.sink k p }
-def G.setSrc (g : G) (i : Nat) (p : SrcPh) : G := { g with src := setAt g.src i p }
-def G.flag (g : G) (v : Viol) : G := { g with viols := v :: g.viols }
+def Ph.sinkPh (g : Ph) (k : Nat) : SinkPh := phAt g.sink k
+def Ph.srcPh (g : Ph) (i : Nat) : SrcPh := phAt g.src i
+def Ph.setSink (g : Ph) (k : Nat) (p : SinkPh) : Ph := { g with sink := setAt g.sink k p }
+def Ph.setSrc (g : Ph) (i : Nat) (p : SrcPh) : Ph := { g with src := setAt g.src i p }
+def Ph.flag (g : Ph) (v : Viol) : Ph := { g with viols := v :: g.viols }
+
+def Ph.onIn {α} (g : Ph) : In α → Ph
+  | .subscribe k => g.setSink k .subscribed
+  | .sinkUp _ .pull => g
+  | .sinkUp k .term => g.setSink k .doneBySelf
+  | .sinkUp k (.err _) => g.setSink k .doneBySelf
+  | .srcGreet i => g.setSrc i .live
+  | .srcDown _ (.data _) => g
+  | .srcDown i .term => g.setSrc i .ended
+  | .srcDown i (.err _) => g.setSrc i .ended
+
+def Ph.anySinkOpen (g : Ph) : Bool := g.sink.any (fun p => p == .subscribed || p == .live)
+
+def isFinal {β} : Down β → Bool
+  | .data _ => false | _ => true
+
+/-- operator outputs: update phases and record protocol violations by the operator -/
+def Ph.onOut {β} (g : Ph) : Out β → Ph
+  | .greet k => if g.sinkPh k = .subscribed then g.setSink k .live else g.flag (.greetPhase k (g.sinkPh k))
+  | .down k d =>
+      match g.sinkPh k with
+      | .live => if isFinal d then g.setSink k .doneBySrc else g
+      | .idle => g.flag (.ungreeted k)
+      | .subscribed => g.flag (.ungreeted k)
+      | .doneBySrc => g.flag (.afterTerm k)
+      | .doneBySelf => g.flag (.afterDispose k)
+  | .subSrc i =>
+      if g.srcPh i ≠ .idle then g.flag (.subTwice i)
+      else if g.anySinkOpen = false then g.flag (.subAfterOver i)
+      else g.setSrc i .subscribed
+  | .srcUp i .pull => if g.srcPh i = .live then g else g.flag (.upNotLive i (g.srcPh i))
+  | .srcUp i .term => if g.srcPh i = .live then g.setSrc i .disposed else g.flag (.upNotLive i (g.srcPh i))
+  | .srcUp i (.err _) => if g.srcPh i = .live then g.setSrc i .disposed else g.flag (.upNotLive i (g.srcPh i))
+  | .app _ => g
 
 /-- who has control when the environment moves -/
 inductive Ctx (β : Type) where | top | inCall (o : Out β)
@@ -136,84 +168,88 @@ def inSub {β} (i : Nat) : Ctx β → Bool | .inCall (.subSrc i') => i == i' | _
 def inPull {β} (i : Nat) : Ctx β → Bool | .inCall (.srcUp i' .pull) => i == i' | _ => false
 
 /-- Legality of an environment call: the conformant-peer automaton (DESIGN §1.2, S0–S3 and K0–K2). -/
-def legalIn {α β} (sh : Shape) (g : G) (c : Ctx β) : In α → Bool
+def legalIn {α β} (sh : Shape) (g : Ph) (c : Ctx β) : In α → Bool
   | .subscribe k => isTop c && g.sinkPh k == .idle && (k == 0 || sh.multiSink)
   | .sinkUp k _ => g.sinkPh k == .live && (isTop c || inGreet k c || inData k c)
   | .srcGreet i => g.srcPh i == .subscribed && (inSub i c || (sh.lateGreet && isTop c))
   | .srcDown i _ => g.srcPh i == .live && (isTop c || inSub i c || inPull i c)
 
 /-- Legality of returning from a call made by the operator. -/
-def legalRet {β} (sh : Shape) (g : G) : Ctx β → Bool
+def legalRet {β} (sh : Shape) (g : Ph) : Ctx β → Bool
   | .top => false
   | .inCall (.subSrc i) => sh.lateGreet || g.srcPh i != .subscribed
   | .inCall _ => true
 
-def livesOf (g : G) : List Nat := (List.range g.sink.length).filter (fun k => g.sinkPh k == .live)
+/-! ## Ghost state, layer 2: what needs memory beyond phases (error relay and orphans of C04, C05) -/
 
-def G.onIn {α} (g : G) (height : Nat) : In α → G
-  | .subscribe k => g.setSink k .subscribed
-  | .sinkUp _ .pull => g
-  | .sinkUp k (.err e) => { g.setSink k .doneBySelf with sinkErr := some (e, height) }
-  | .sinkUp k .term => g.setSink k .doneBySelf
-  | .srcGreet i => g.setSrc i .live
-  | .srcDown _ (.data _) => g
-  | .srcDown i (.err e) =>
-      let g' := g.setSrc i .ended
-      if (livesOf g).isEmpty || g.pend.isSome then g' else { g' with pend := some (e, height, livesOf g) }
-  | .srcDown i .term => g.setSrc i .ended
+structure G where
+  ph : Ph := {}
+  fin : List (Option Fin) := []                  -- per sink: terminal received
+  sinkErr : Option (Nat × Nat) := none           -- (error a sink is sending upstream, stack height of that call)
+  pend : Option (Nat × Nat × List Nat) := none   -- (error id, stack height at arrival, sinks live at arrival)
+  xviols : List Viol := []
+deriving Repr, BEq, Hashable
 
-def anySinkOpen (g : G) : Bool := g.sink.any (fun p => p == .subscribed || p == .live)
+def G.viols (g : G) : List Viol := g.xviols ++ g.ph.viols
+def G.finOf (g : G) (k : Nat) : Option Fin := phAt g.fin k
+def G.flagAll (g : G) (vs : List Viol) : G := { g with xviols := vs.reverse ++ g.xviols }
+
+def livesOf (g : Ph) : List Nat := (List.range g.sink.length).filter (fun k => g.sinkPh k == .live)
+def liveSrcs (g : Ph) : List Nat := (List.range g.src.length).filter (fun i => g.srcPh i == .live)
+
+def G.onIn {α} (g : G) (height : Nat) (i : In α) : G :=
+  let g' := { g with ph := g.ph.onIn i }
+  match i with
+  | .sinkUp _ (.err e) => { g' with sinkErr := some (e, height) }
+  | .srcDown _ (.err e) =>
+      if (livesOf g.ph).isEmpty || g.pend.isSome then g' else { g' with pend := some (e, height, livesOf g.ph) }
+  | _ => g'
 
 def finOfDown {β} : Down β → Option Fin
   | .data _ => none | .term => some .term | .err e => some (.err e)
 
-/-- operator outputs: update phases and record protocol violations by the operator -/
-def G.onOut {β} (sh : Shape) (g : G) : Out β → G
-  | .greet k => if g.sinkPh k == .subscribed then g.setSink k .live else g.flag (.greetPhase k (g.sinkPh k))
+def G.onOut {β} (sh : Shape) (g : G) (o : Out β) : G :=
+  let g' := { g with ph := g.ph.onOut o }
+  match o with
   | .down k d =>
-      match g.sinkPh k with
-      | .live => match finOfDown d with
-        | none => g
-        | some f => { g.setSink k .doneBySrc with fin := setAt g.fin k (some f) }
-      | .idle => g.flag (.ungreeted k)
-      | .subscribed => g.flag (.ungreeted k)
-      | .doneBySrc => g.flag (.afterTerm k)
-      | .doneBySelf => g.flag (.afterDispose k)
-  | .subSrc i =>
-      if g.srcPh i != .idle then g.flag (.subTwice i)
-      else if !anySinkOpen g then g.flag (.subAfterOver i)
-      else g.setSrc i .subscribed
-  | .srcUp i .pull => if g.srcPh i == .live then g else g.flag (.upNotLive i (g.srcPh i))
+      if g.ph.sinkPh k = .live then
+        match finOfDown d with
+        | some f => { g' with fin := setAt g.fin k (some f) }
+        | none => g'
+      else g'
   | .srcUp i .term =>
-      if g.srcPh i == .live then
-        if sh.relayErr && g.sinkErr.isSome then (g.setSrc i .disposed).flag (.errNotRelayed i) else g.setSrc i .disposed
-      else g.flag (.upNotLive i (g.srcPh i))
+      if g.ph.srcPh i = .live && sh.relayErr && g.sinkErr.isSome then g'.flagAll [.errNotRelayed i] else g'
   | .srcUp i (.err e') =>
-      if g.srcPh i == .live then
-        match g.sinkErr with
-        | some (e, _) => if sh.relayErr && e != e' then (g.setSrc i .disposed).flag (.errNotRelayed i) else g.setSrc i .disposed
-        | none => g.setSrc i .disposed
-      else g.flag (.upNotLive i (g.srcPh i))
-  | .app _ => g
+      match g.sinkErr with
+      | some (e, _) => if g.ph.srcPh i = .live && sh.relayErr && e != e' then g'.flagAll [.errNotRelayed i] else g'
+      | none => g'
+  | _ => g'
 
-def liveSrcs (g : G) : List Nat := (List.range g.src.length).filter (fun i => g.srcPh i == .live)
+/-- the sink's `Error` has been handled once the handler of that call returns -/
+def G.clearSinkErr (g : G) (height : Nat) : G :=
+  match g.sinkErr with
+  | some (_, h) => if h == height then { g with sinkErr := none } else g
+  | none => g
+
+/-- C05: when the handler of an upstream `Error(e)` returns, every sink that was live has received exactly that error and
+no upstream is live any more -/
+def G.checkPend (g : G) (height : Nat) : G :=
+  match g.pend with
+  | some (e, h, ks) =>
+    if h == height then
+      { g with pend := none }.flagAll
+        (((ks.filter (fun k => g.finOf k != some (Fin.err e))).map (Viol.errLost e)) ++ ((liveSrcs g.ph).map (Viol.errSibling e)))
+    else g
+  | none => g
+
+/-- C04: control is back at top level, the output is over, and an upstream is still live -/
+def G.checkOrphans (g : G) (height : Nat) : G :=
+  if height == 0 && !g.ph.anySinkOpen && g.ph.sink.length > 0 then
+    g.flagAll (((liveSrcs g.ph).filter (fun i => !g.xviols.contains (.orphan i))).map Viol.orphan)
+  else g
 
 /-- checks made when an operator handler returns, `height` = stack height after the return -/
-def G.onRetO (g0 : G) (height : Nat) : G :=
-  let g0 := match g0.sinkErr with
-    | some (_, h) => if h == height then { g0 with sinkErr := none } else g0
-    | none => g0
-  let g := match g0.pend with
-    | some (e, h, ks) =>
-      if h == height then
-        let g1 := { g0 with pend := none }
-        let g2 := (ks.filter (fun k => g0.finOf k != some (.err e))).foldl (fun g k => g.flag (.errLost e k)) g1
-        (liveSrcs g0).foldl (fun g i => g.flag (.errSibling e i)) g2
-      else g0
-    | none => g0
-  if height == 0 && !anySinkOpen g && g.sink.length > 0 then
-    (liveSrcs g).foldl (fun g i => g.flag (.orphan i)) g
-  else g
+def G.onRetO (g : G) (height : Nat) : G := ((g.clearSinkErr height).checkPend height).checkOrphans height
 
 /-- boundary events, newest first in `Sys.tr` -/
 inductive Ev (α β : Type) where
@@ -258,13 +294,13 @@ def envMove {St Loc α β} (M : Machine St Loc α β) (s : Sys St Loc α β) : M
   | .call i =>
     if s.panicked.isSome then none else
     match ctxOf s.stack with
-    | some c => if legalIn M.shape s.g c i then
+    | some c => if legalIn M.shape s.g.ph c i then
         some { s with stack := .run (M.enter i) :: s.stack, g := s.g.onIn s.stack.length i, tr := .inp i :: s.tr } else none
     | none => none
   | .ret =>
     if s.panicked.isSome then none else
     match s.stack with
-    | .wait o l :: stk => if legalRet M.shape s.g (.inCall o) then some { s with stack := .run l :: stk, tr := .retE :: s.tr } else none
+    | .wait o l :: stk => if legalRet M.shape s.g.ph (.inCall o) then some { s with stack := .run l :: stk, tr := .retE :: s.tr } else none
     | _ => none
 
 end Cb
